@@ -18,7 +18,7 @@ class _Subst(ast.NodeTransformer):
 
 class SpecMixin:
     SPEC_FUNCS = {"forall", "exists", "forall2", "implies", "iff", "old", "strictly_increasing", "nondecreasing",
-                  "member", "psum", "same", "ite", "unchanged", "is_none", "card", "psum_monotone", "mpow", "wsum", "intro_all", "intro", "dict_values_in"}
+                  "member", "psum", "same", "ite", "unchanged", "is_none", "card", "psum_monotone", "mpow", "wsum", "intro_all", "intro", "dict_values_in", "lemma"}
 
     def parse_spec(self, src):
         if src not in self._spec_cache:
@@ -236,10 +236,22 @@ class SpecMixin:
         zero = z3.RealVal(0) if kind == "real" else zint(0)
         nonneg = z3.ForAll([k], z3.Implies(z3.And(k >= 0, k < n), z3.Select(a, k) >= zero))
         self.trust("lemma: prefix sums of a non-negative array are non-decreasing (induction; stated, standard)")
+        if not z3.is_const(a):
+            a_c = fresh("lensarr", a.sort())
+            st.assume(a_c == a)
+            a = a_c
+        self._last_lemma = (nonneg, None)
+        concl = z3.And(
+            qall([i, j], z3.Implies(z3.And(0 <= i, i <= j, j <= n), f(a, i) <= f(a, j)), pats=[z3.MultiPattern(f(a, i), f(a, j))]),
+            qall([i, j], z3.Implies(z3.And(0 <= i, i < j, j <= n), f(a, i) + z3.Select(a, i) <= f(a, j)), pats=[z3.MultiPattern(f(a, i), f(a, j))]),
+            qall([i], z3.Implies(z3.And(0 <= i, i < n), f(a, i + 1) == f(a, i) + z3.Select(a, i)), pats=[f(a, i + 1)]),
+            f(a, zint(0)) == zero)
+        self._last_lemma = (nonneg, concl)
+        return Sc("bool", z3.Implies(nonneg, concl))
         return Sc("bool", z3.Implies(nonneg, z3.And(
-            z3.ForAll([i, j], z3.Implies(z3.And(0 <= i, i <= j, j <= n), f(a, i) <= f(a, j)), patterns=[z3.MultiPattern(f(a, i), f(a, j))]),
-            z3.ForAll([i, j], z3.Implies(z3.And(0 <= i, i < j, j <= n), f(a, i) + z3.Select(a, i) <= f(a, j)), patterns=[z3.MultiPattern(f(a, i), f(a, j))]),
-            z3.ForAll([i], z3.Implies(z3.And(0 <= i, i < n), f(a, i + 1) == f(a, i) + z3.Select(a, i)), patterns=[f(a, i + 1)]),
+            qall([i, j], z3.Implies(z3.And(0 <= i, i <= j, j <= n), f(a, i) <= f(a, j)), pats=[z3.MultiPattern(f(a, i), f(a, j))]),
+            qall([i, j], z3.Implies(z3.And(0 <= i, i < j, j <= n), f(a, i) + z3.Select(a, i) <= f(a, j)), pats=[z3.MultiPattern(f(a, i), f(a, j))]),
+            qall([i], z3.Implies(z3.And(0 <= i, i < n), f(a, i + 1) == f(a, i) + z3.Select(a, i)), pats=[f(a, i + 1)]),
             f(a, zint(0)) == zero)))
 
     def _mat_defs(self, st):
@@ -348,6 +360,28 @@ class SpecMixin:
         k = fresh("key", d.ksort)
         v = z3.Select(d.val, k)
         return Sc("bool", qall([k], z3.Implies(z3.Select(d.dom, k), z3.And(v >= lo, v < hi)), pats=[z3.Select(d.dom, k)]))
+
+    LEMMA_FUNCS = {"psum_monotone"}
+
+    def spec_lemma(self, node, st):
+        """lemma(psum_monotone(...)): in ghost code, add an instance of a (stated, trusted) lemma to what is known.  Only the
+        named lemma functions are accepted, so that ghost code cannot assume arbitrary facts."""
+        inner = node.args[0]
+        if not (isinstance(inner, ast.Call) and isinstance(inner.func, ast.Name) and inner.func.id in self.LEMMA_FUNCS):
+            raise VCError("lemma() accepts only %s" % sorted(self.LEMMA_FUNCS))
+        self._last_lemma = None
+        whole = truth(self.eval(inner, st))
+        if self._last_lemma and self._last_lemma[1] is not None:
+            premise, concl = self._last_lemma
+            saved, self.spec = self.spec, False
+            try:
+                self.oblige(st, "lemma-premise", node, premise, "premise of %s (entries non-negative)" % ast.unparse(inner)[:80])
+            finally:
+                self.spec = saved
+            st.assume(concl)
+        else:
+            st.assume(whole)
+        return Sc("bool", z3.BoolVal(True))
 
     def spec_same(self, node, st):
         """same(a, b): the two expressions denote the same heap object."""
